@@ -47,6 +47,7 @@ package rm
 
 //@ func (*ResourceManagerCache).RegisterResourceManager
 //@   prop C15
+//@   modifies heap.all
 //@   requires d != nil && resourceManager != nil
 //@   ensures stored: syncmap(d, "resourceManagerMap")[box(ufi("rm.branchtype", resourceManager), branch.BranchType)] == resourceManager
 
